@@ -293,6 +293,16 @@ def minimise(prog, fails, limit=150, strong=False):
 
     if prog.get("text"):  # surface text fixed by hand: the AST cannot be shrunk independently
         return prog
+    fails0 = fails
+
+    def fails(p):
+        # a candidate on which the harness itself trips (e.g. a variant that refers to a removed clause) is
+        # simply not a smaller failing case
+        try:
+            return fails0(p)
+        except (IndexError, KeyError, ValueError, TypeError, AttributeError):
+            return False
+
     small = shrink(prog, strong_candidates if strong else shrink_candidates, fails, limit=limit)
     for cand in canonical_variants(small):
         if cand == small:
